@@ -68,7 +68,7 @@ def gen_frame(rng, n_pre=None, cooldown=None, cost_kind=None, spike=False):
   noise = rng.choice([0.5, 2.0, 6.0])
   lift = rng.uniform(0, 30)
   rows = []
-  cancel = [rng.randint(2, 9) for _ in range(T)]
+  cancel = [rng.randint(2, 9) + (d % 3) * 10 for d in range(T)]      # never constant over three consecutive days
   wc = [rng.uniform(0.5, 2) for _ in range(n_c)]
   wt = [rng.uniform(0.5, 2) for _ in range(n_t)]
   for d in range(T):
